@@ -64,6 +64,11 @@ def _cases(draw, tier):
         kw['cls'] = draw(st.sampled_from(['lower_quotas', 'lower_quotas', 'two_agent', 'generic']))
         kw['min_len'] = draw(st.sampled_from([1, 2, 3]))
     inst = draw(strategies.instances(strategies.SIZES[tier], **kw))
+    if name in ('maxsize', 'minsize', 'gen', 'gre', 'mincost') and pct(draw) < 12:
+        # -stab on an instance whose stable matchings have different sizes
+        inst = draw(strategies.size_gadget_instances())
+        kw['cls'] = 'size_gadget'
+        forced = True
     if forced and kw['cls'] != 'lower_quotas' and inst['lprefs'] is None:
         forced = False
     lecmult = (name in ('mincost', 'minsqcost') and inst['lprefs'] is not None
